@@ -1,1 +1,4 @@
+pub mod c02;
+pub mod c04;
+pub mod c07;
 pub mod sessions;
